@@ -643,14 +643,13 @@ class RZILTransformer(Transformer):
             )
             assign.set_src(ArithmeticOp(f"op_MOD", a, b, ArithmeticType.MOD))
         elif assign.assign_type == AssignmentType.ASSIGN_DIV:
-            assign.set_src(
-                ArithmeticOp(
-                    f"op_DIV",
-                    self.promotion_cast(assign.dest),
-                    self.promotion_cast(assign.src),
-                    ArithmeticType.DIV,
-                )
+            # The right operand is not converted to the target type first (see assignment_expr).
+            a, b = self.cast_operands(
+                a=self.promotion_cast(assign.dest),
+                b=self.promotion_cast(assign.src),
+                immutable_a=False,
             )
+            assign.set_src(ArithmeticOp(f"op_DIV", a, b, ArithmeticType.DIV))
         elif assign.assign_type == AssignmentType.ASSIGN_RIGHT:
             assign.set_src(
                 BitOp(
@@ -727,6 +726,7 @@ class RZILTransformer(Transformer):
             src: Pure = items[2]
         name = f"op_{op_type.name}"
         if op_type not in [
+            AssignmentType.ASSIGN_DIV,
             AssignmentType.ASSIGN_MOD,
             AssignmentType.ASSIGN_RIGHT,
             AssignmentType.ASSIGN_LEFT,
